@@ -111,17 +111,20 @@ def _agree(a, b, c, v, uid):
     check((r2 == "BAD") == (ref == "BAD"), "C15/agree/msg_set_to_msg_seq_set_bad_differs", set=repr(mset), got=repr(r2), ref=repr(ref), n=n, uid=uid)
     if ref != "BAD":
         check(member(r2) == ref_m, "C15/agree/msg_set_to_msg_seq_set_membership_differs", set=repr(mset), probe=probe, n=n, uid=uid)
-    # 3. the SEARCH matchers on the probed message (a SEARCH key may simply match nothing where a command is BAD)
+    # 3. the SEARCH matchers through the real Mailbox.search (seq_max / uid_max as it computes them); the
+    #    mailbox's UIDNEXT may be above last UID + 1 (the highest message was expunged).  A SEARCH key may
+    #    simply match nothing where a command is BAD.
     if n:
-        ctx = SearchContext(mb, keys[v - 1], v, n, uids[-1])
-        key = IMAPSearch("uid" if uid else "message_set", msg_set=mset)
-        m3 = run(key.match(ctx))
-        if ref == "BAD":
-            check(m3 is False or m3 is True, "C15/agree/search_matcher_raised")
-            # an out-of-range number must not be applied to some other message
-            pass
-        else:
-            check(bool(m3) == ref_m, "C15/agree/search_matcher_membership_differs", set=repr(mset), probe=probe, got=bool(m3), expected=ref_m, n=n, uid=uid)
+        from asv.symrt.simloop import SimLoop, result_of
+
+        mb.next_uid = uids[-1] + 1 + core.PARAMS.get("slack", 0)
+        key = IMAPSearch("and", search_key=[IMAPSearch("uid" if uid else "message_set", msg_set=mset)])
+        st, t = SimLoop().run_coro(mb.search(key, uid_cmd=False))
+        kind, res = result_of(t)
+        check(st == "ok" and kind == "ok", "C15/agree/search_matcher_raised", set=repr(mset), exc=repr(res))
+        m3 = v in res
+        if ref != "BAD":
+            check(bool(m3) == ref_m, "C15/agree/search_matcher_membership_differs", set=repr(mset), probe=probe, got=bool(m3), expected=ref_m, n=n, uid=uid, slack=core.PARAMS.get("slack", 0))
 
 
 def jobs(tier):
@@ -134,7 +137,8 @@ def jobs(tier):
             if q and uid:
                 hi = min(hi, 9)
             for shape in range(len(SHAPES)):
-                js.append({"name": f"agree[n={n},uid={int(uid)},{SHAPES[shape]}]", "fn": "agree", "params": {"n": n, "uid": uid, "shape": shape, "hi": hi}, "timeout": T, "per_path": 90})
+                for slack in ((0, 2) if uid and n else (0,)):
+                    js.append({"name": f"agree[n={n},uid={int(uid)},{SHAPES[shape]},slack={slack}]", "fn": "agree", "params": {"n": n, "uid": uid, "shape": shape, "hi": hi, "slack": slack}, "timeout": T, "per_path": 90})
     return js + _plans.mboxops_jobs("C15", tier)
 
 
